@@ -148,7 +148,7 @@ def parseFont (ws : List String) : Option RawFontDict := do
     let (_, ws) ← expect "F" ws
     let (fk, ws) ← pWord ws
     if fk == "none" then some (some { missingWidth := mw, fontFile := none : DescriptorOf RawFontFile }, ws) else do
-      let l1 ← fk.toInt?
+      let l1 ← (if fk == "-" then some none else fk.toInt?.map some)
       let (hx, ws) ← pWord ws
       let bs ← bytesOfHex hx
       some (some { missingWidth := mw, fontFile := some { data := bs, length1 := l1 } : DescriptorOf RawFontFile }, ws))
